@@ -1,20 +1,20 @@
 import PhysisModel.Base.Bytes
 import Std.Tactic.BVDecide
-/-! Round-trip lemmas for the fixed-width codecs (bit-vector facts, discharged by `bv_decide`). -/
+/-! Round-trip lemmas for the fixed-width codecs (bit-vector facts, discharged by `bv_decide (timeout := 300)`). -/
 namespace Physis
 
 theorem getU16le_put (v : UInt16) : getU16le (putU16le v) = some v := by
-  simp only [putU16le, getU16le]; congr 1; bv_decide
+  simp only [putU16le, getU16le]; congr 1; bv_decide (timeout := 300)
 theorem getU16be_put (v : UInt16) : getU16be (putU16be v) = some v := by
-  simp only [putU16be, getU16be]; congr 1; bv_decide
+  simp only [putU16be, getU16be]; congr 1; bv_decide (timeout := 300)
 theorem getU32le_put (v : UInt32) : getU32le (putU32le v) = some v := by
-  simp only [putU32le, getU32le]; congr 1; bv_decide
+  simp only [putU32le, getU32le]; congr 1; bv_decide (timeout := 300)
 theorem getU32be_put (v : UInt32) : getU32be (putU32be v) = some v := by
-  simp only [putU32be, getU32be]; congr 1; bv_decide
+  simp only [putU32be, getU32be]; congr 1; bv_decide (timeout := 300)
 theorem getU64le_put (v : UInt64) : getU64le (putU64le v) = some v := by
-  simp only [putU64le, getU64le]; congr 1; bv_decide
+  simp only [putU64le, getU64le]; congr 1; bv_decide (timeout := 300)
 theorem getU64be_put (v : UInt64) : getU64be (putU64be v) = some v := by
-  simp only [putU64be, getU64be]; congr 1; bv_decide
+  simp only [putU64be, getU64be]; congr 1; bv_decide (timeout := 300)
 
 
 end Physis
